@@ -1007,10 +1007,12 @@ def parse_int(items: list) -> Any:
         bad()
     total: Any = 0
     prev_us = True  # underscore not allowed at the start
+    ndigits = 0
     for c in body:
         if _in_range(c, 48, 57):
             total = total * 10 + (c - 48)
             prev_us = False
+            ndigits += 1
         elif c == 95:
             if prev_us:
                 bad()
@@ -1021,6 +1023,12 @@ def parse_int(items: list) -> Any:
             bad()
     if prev_us:
         bad()
+    import sys as _sys
+    limit = _sys.get_int_max_str_digits() if hasattr(_sys, 'get_int_max_str_digits') else 0
+    if limit and ndigits > limit:
+        # CPython >= 3.11: decimal strings longer than the limit are refused
+        raise ValueError('Exceeds the limit (%d digits) for integer string conversion: value has %d digits; use '
+                         'sys.set_int_max_str_digits() to increase the limit' % (limit, ndigits))
     return -total if neg else total
 
 
